@@ -440,6 +440,15 @@ func ruleInc3(c *Ctx) []*Ob {
 			}
 			if rec {
 				o.add(w.fn, construct, c.instrPos(pos), true, "recursive call inside the loop over "+mname)
+				// every way around the loop either recurses or passes an allowed skip edge
+				for _, scc := range loops {
+					if bad := loopSkipsRecursion(c, f, scc, mname); bad != "" {
+						o.add(w.fn, "no unlisted skip in the loop over "+mname, c.instrPos(pos), false, bad)
+					} else {
+						o.add(w.fn, "no unlisted skip in the loop over "+mname, c.instrPos(pos), true,
+							"an iteration skips the recursive call only on a missing-counterpart, incarnation-mismatch, deleted-marker or already-processed edge")
+					}
+				}
 			} else {
 				o.add(w.fn, construct, c.pos(f.Pos()), false,
 					"the loop over "+mname+" does not call the walker on the children: the subtree is not processed")
@@ -480,6 +489,97 @@ func ruleInc3(c *Ctx) []*Ob {
 		})
 	}
 	return o.list
+}
+
+// loopSkipsRecursion: in the range loop over a child map, can an iteration
+// complete without the walker's recursive call and without passing one of
+// the allowed skip edges?
+func loopSkipsRecursion(c *Ctx, f *ssa.Function, scc map[*ssa.BasicBlock]bool, mname string) string {
+	// the Next instruction of this loop
+	var next *ssa.Next
+	for b := range scc {
+		for _, i := range b.Instrs {
+			if nx, ok := i.(*ssa.Next); ok {
+				if rg, ok := nx.Iter.(*ssa.Range); ok {
+					if fv, _ := loadedField(rg.X); fv != nil && fv.Name() == mname {
+						next = nx
+					}
+				}
+			}
+		}
+	}
+	if next == nil {
+		return ""
+	}
+	allowedSkip := func(from, to *ssa.BasicBlock, cond ssa.Value, onTrue bool) bool {
+		if !scc[to] {
+			return true // leaving the loop (return / break): not an iteration that skipped
+		}
+		switch x := cond.(type) {
+		case *ssa.Extract:
+			// `_, exists := childMap[name]` : the !exists edge
+			if lk, ok := x.Tuple.(*ssa.Lookup); ok && x.Index == 1 {
+				if fv, _ := loadedField(lk.X); fv != nil && childMapNames[fv.Name()] {
+					return !onTrue
+				}
+			}
+			// the range's own ok flag
+			if _, ok := x.Tuple.(*ssa.Next); ok {
+				return false
+			}
+		case *ssa.BinOp:
+			if x.Op != token.EQL && x.Op != token.NEQ {
+				return false
+			}
+			fl, _ := loadedField(x.X)
+			fr, _ := loadedField(x.Y)
+			if isIncarNum(fl) && isIncarNum(fr) {
+				return (x.Op == token.NEQ) == onTrue // the mismatch edge
+			}
+			for _, opnd := range []ssa.Value{x.X, x.Y} {
+				if isGlobalLoad(opnd, mossPath, "deletedChildBatchMarker") {
+					return (x.Op == token.EQL) == onTrue
+				}
+			}
+			// element of a child map compared with nil: "already processed" (non-nil) or "no counterpart" (nil)
+			if isNilConst(x.Y) || isNilConst(x.X) {
+				v := x.X
+				if isNilConst(v) {
+					v = x.Y
+				}
+				isChildElem := false
+				for _, og := range origins(v) {
+					if _, _, ok := childKeyOf(og); ok {
+						isChildElem = true
+					}
+				}
+				if isChildElem {
+					return true
+				}
+			}
+		}
+		return false
+	}
+	skipped := false
+	start := after(next)
+	walk(start, walkOpts{
+		visit: func(i ssa.Instruction, t *tracker) bool {
+			if i == ssa.Instruction(next) {
+				skipped = true
+				return true
+			}
+			if ci, ok := i.(ssa.CallInstruction); ok && ci.Common().StaticCallee() == f {
+				return true
+			}
+			return false
+		},
+		edge: func(from, to *ssa.BasicBlock, label string, cond ssa.Value, onTrue bool, t *tracker) bool {
+			return allowedSkip(from, to, cond, onTrue)
+		}})
+	if skipped {
+		return "an iteration over " + mname + " can complete without the recursive call on a condition that is neither a missing counterpart, an incarnation mismatch nor the deleted marker: the child is silently left out of the result (downstream, an absent child means 'deleted')"
+	}
+	return ""
 }
 
 // subjectParams: indices of parameters p of f such that f ranges over p.<mapName>.
